@@ -313,6 +313,16 @@ func (s *Sched) hook(id uintptr, point int) {
 		s.mu.Unlock()
 		return
 	case LexBefore, EmitBefore, PopWaitBefore, JoinBefore:
+		if point == PopWaitBefore {
+			// the window between "the stack is empty" and the wait for the
+			// parser's wake-up is a scheduling point of its own: hold here first,
+			// so that the push can happen before the wait begins
+			p.st = stHeld
+			s.pick()
+			s.mu.Unlock()
+			<-p.wake
+			s.mu.Lock()
+		}
 		p.st = stBlocked
 		switch point {
 		case LexBefore:
@@ -400,7 +410,7 @@ func Run(choices []int, keepTrace bool, fn func()) Result {
 		fn()
 	}()
 	var res Result
-	deadline := time.After(20 * time.Second)
+	deadline := time.After(10 * time.Second)
 wait:
 	for {
 		select {
